@@ -1,0 +1,30 @@
+//go:build verif
+
+package channel
+
+import "sort"
+
+// VerifValidPhaseTransitions exports the phase transition table for the
+// verification harness (sorted for determinism).
+func VerifValidPhaseTransitions() [][2]uint8 {
+	out := make([][2]uint8, 0, len(validPhaseTransitions))
+	for t := range validPhaseTransitions {
+		out = append(out, [2]uint8{uint8(t.From), uint8(t.To)})
+	}
+	sort.Slice(out, func(i, j int) bool {
+		if out[i][0] != out[j][0] {
+			return out[i][0] < out[j][0]
+		}
+		return out[i][1] < out[j][1]
+	})
+	return out
+}
+
+// VerifSigningPhases exports the list of signing phases.
+func VerifSigningPhases() []uint8 {
+	out := make([]uint8, len(signingPhases))
+	for i, p := range signingPhases {
+		out[i] = uint8(p)
+	}
+	return out
+}
